@@ -33,6 +33,7 @@ type Ctx struct {
 	curAllocState *State
 	// cells of variables assigned once in their lexical family: content survives havocs
 	immCells     []immCell
+	privObjs     []privObj // allocations that never leave the function (see private.go)
 	assumeProbes []assumeProbe
 	shapeDone    map[string]bool
 }
